@@ -37,6 +37,9 @@ type fsmEvent struct {
 	WinClosed bool      // recording window closed while this event is processed
 	CheckFail bool      // CheckCanRecord of the motion sink refuses
 	StartFail bool      // StartRecording of the motion sink fails
+	// real time that passes before this event is processed (a camera delivering slower than its
+	// nominal frame rate, a stalled socket): recording lengths are counted in frames, not seconds
+	Stall time.Duration
 }
 
 type fsmConfig struct {
@@ -148,7 +151,7 @@ func (s *monSink) StartRecording(bg *cptvframe.Frame, thresh uint16) error {
 }
 func (s *monSink) WriteFrame(f *cptvframe.Frame) error {
 	err := s.result(opWrite)
-	s.run.add(s.which, sinkOp{Op: opWrite, Seq: f.Status.FrameCount, Err: err != nil})
+	s.run.add(s.which, sinkOp{Op: opWrite, Seq: fsmSeqOf(f), Err: err != nil})
 	return err
 }
 func (s *monSink) StopRecording() error {
@@ -204,8 +207,9 @@ type fsmRun struct {
 	afterStep func(r *fsmRun, s *stepRec)
 	// test-recording requests that did not return (the service path must never block)
 	blockedRequests int
-	// see fsmTimeOnMode
-	timeOnMode int
+	// see fsmTimeOnMode, fsmCounterMode
+	timeOnMode  int
+	counterMode int
 }
 
 var snapBlockedOnce int32
@@ -280,13 +284,34 @@ func fsmTimeOn(seq int) time.Duration {
 	return time.Minute + time.Duration(seq)*111*time.Millisecond
 }
 
+// fsmCounterMode selects the camera's telemetry frame counter: 0 unique per frame, 1 always
+// zero (Boson frames carry no counter), 2 a constant non-zero value, 3 each value three
+// times (a counter running slower than the frames are delivered). Set per step by fsmRun.
+var fsmCounterMode int
+
+func fsmFrameCount(seq int) int {
+	switch fsmCounterMode {
+	case 1:
+		return 0
+	case 2:
+		return 7
+	case 3:
+		return seq/3 + 1
+	}
+	return seq
+}
+
+// fsmSeqOf identifies a frame handed to a sink (independent of the telemetry the code may look at).
+func fsmSeqOf(f *cptvframe.Frame) int { return int(f.Status.TempC) }
+
 func fsmParse(raw []byte, out *cptvframe.Frame, edge int) error {
 	seq := int(raw[1]) | int(raw[2])<<8 | int(raw[3])<<16 | int(raw[4])<<24
 	level := uint16(raw[5]) | uint16(raw[6])<<8
 	out.Status = cptvframe.Telemetry{
 		TimeOn:      fsmTimeOn(seq),
 		LastFFCTime: time.Second,
-		FrameCount:  seq,
+		FrameCount:  fsmFrameCount(seq),
+		TempC:       float64(seq), // the harness' own frame id (camera temperature: used by no logic)
 	}
 	rows := len(out.Pix)
 	if raw[0] == evBad {
@@ -363,7 +388,10 @@ func (r *fsmRun) step(ev fsmEvent) *stepRec {
 	r.steps = append(r.steps, stepRec{Ev: ev, Seq: -1, Acc: -1})
 	rec := &r.steps[len(r.steps)-1]
 	r.cur, r.curRec = &rec.Ev, rec
-	fsmTimeOnMode = r.timeOnMode
+	fsmTimeOnMode, fsmCounterMode = r.timeOnMode, r.counterMode
+	if ev.Stall > 0 {
+		time.Sleep(ev.Stall)
+	}
 	if !ev.At.IsZero() {
 		r.now = ev.At
 	} else if ev.WinClosed {
